@@ -92,8 +92,14 @@ type config struct {
 	inspect []string
 	// plats: platforms probed against the trie at every boundary (default
 	// P1, P2).
-	plats       []string
-	fail        bool // "W.fail" letters: worker reports a failed action (size class retry)
+	plats []string
+	fail  bool // "W.fail" letters: worker reports a failed action (size class retry)
+	// rewrite: platform rewriting as documented for DemultiplexingActionRouter +
+	// StaticKeyExtractor: requests whose Action carries platform <from> (any
+	// instance name) are routed by a SimpleActionRouter with a
+	// StaticKeyExtractor for platform <to>, i.e. they must be queued in the
+	// platform queue (longest prefix of THEIR instance name, platform <to>).
+	rewrite     map[string]string
 	mixedRouter bool // invocation paths of varying depth (custom key extraction)
 	wt, qt      int  // worker / platform queue timeouts in ticks (0: beyond every horizon)
 	prefix      []string
@@ -209,6 +215,14 @@ type sys struct {
 	actors   []*actor
 	outcome  []string
 
+	// spawn starts the short-lived thread of a client/operator letter:
+	// x.Go in explored scenarios, a plain goroutine in scripted ones.
+	spawn func(name string, fn func())
+	// scripted: letters are not offered to the engine but collected in
+	// letterDefs and fired by runScript (see script.go).
+	scripted   bool
+	letterDefs map[string]*letterDef
+
 	keyNames  map[string]string // invocation key -> model name
 	nameKeys  map[string]invocation.Key
 	platNames map[string]string // platform string -> model name
@@ -238,7 +252,21 @@ func (s *sys) failBoth(fp, format string, args ...any) {
 	s.x.FailP("C05", fp, "after %v: %s", s.hist, msg)
 }
 
+type letterDef struct {
+	enabled func() bool
+	fire    func()
+}
+
 func platformName(p string) *remoteexecution.Platform { return platforms[p] }
+
+// routedPlatform is the platform of the queue a request whose Action carries
+// platform p must end up in.
+func (c *config) routedPlatform(p string) string {
+	if to, ok := c.rewrite[p]; ok {
+		return to
+	}
+	return p
+}
 
 func build(x *mc.X, cfg *config, depth int) *sys {
 	s := newSys(x, cfg, depth)
@@ -260,7 +288,8 @@ func build(x *mc.X, cfg *config, depth int) *sys {
 // newSys creates the scheduler under test with its fakes and the reference
 // model, without any threads or letters.
 func newSys(x *mc.X, cfg *config, depth int) *sys {
-	s := &sys{x: x, cfg: cfg, depth: depth, idleStep: -1,
+	s := &sys{x: x, cfg: cfg, depth: depth, idleStep: -1, letterDefs: map[string]*letterDef{},
+		spawn:    func(name string, fn func()) { x.Go(name, fn) },
 		keyNames: map[string]string{}, nameKeys: map[string]invocation.Key{}, platNames: map[string]string{}, hostNames: map[string]string{}}
 	s.ctx, s.cancel = context.WithCancel(context.Background())
 	s.clock = newFakeClock(x)
@@ -273,6 +302,23 @@ func newSys(x *mc.X, cfg *config, depth int) *sys {
 		scriptedAnalyzer{})
 	if cfg.mixedRouter {
 		router = mixedDepthRouter{base: router}
+	}
+	if len(cfg.rewrite) > 0 {
+		demux := routing.NewDemultiplexingActionRouter(platform.ActionKeyExtractor, router)
+		var froms []string
+		for from := range cfg.rewrite {
+			froms = append(froms, from)
+		}
+		sort.Strings(froms)
+		for _, from := range froms {
+			if err := demux.RegisterActionRouter(mustInst(""), platformName(from), routing.NewSimpleActionRouter(
+				platform.NewStaticKeyExtractor(platformName(cfg.rewrite[from])),
+				[]invocation.KeyExtractor{invocation.CorrelatedInvocationsIDKeyExtractor, invocation.ToolInvocationIDKeyExtractor},
+				scriptedAnalyzer{})); err != nil {
+				panic(err)
+			}
+		}
+		router = demux
 	}
 	allow := auth.NewStaticAuthorizer(func(digest.InstanceName) bool { return true })
 	s.bq = scheduler.NewInMemoryBuildQueue(s.cas, s.clock, newUUIDGenerator(), &scheduler.InMemoryBuildQueueConfiguration{
@@ -343,6 +389,16 @@ func (s *sys) consume(name string) {
 }
 
 func (s *sys) letter(name string, enabled func() bool, fire func()) {
+	if s.scripted {
+		s.letterDefs[name] = &letterDef{
+			enabled: func() bool { return s.allowed(name) && (enabled == nil || enabled()) },
+			fire: func() {
+				s.consume(name)
+				fire()
+			},
+		}
+		return
+	}
 	s.x.AddEvent(&mc.Event{
 		Name: name, OnlyIdle: true, Free: true,
 		Enabled: func() bool { return s.allowed(name) && (enabled == nil || enabled()) },
@@ -354,8 +410,16 @@ func (s *sys) letter(name string, enabled func() bool, fire func()) {
 }
 
 func (s *sys) addLetters() {
-	// Sentinel: evaluated exactly when no thread is enabled, i.e. at the
-	// boundary between two letters. Runs the boundary oracles.
+	if !s.scripted {
+		s.addSentinels()
+	}
+	s.addAlphabet()
+}
+
+// addSentinels registers the boundary sentinel - evaluated exactly when no
+// thread is enabled, i.e. at the boundary between two letters; runs the
+// boundary oracles - and the orderly shutdown.
+func (s *sys) addSentinels() {
 	s.x.AddEvent(&mc.Event{Name: "boundary", OnlyIdle: true, Free: true, Enabled: func() bool {
 		if !s.torn && s.idleStep != s.x.Steps() {
 			s.idleStep = s.x.Steps()
@@ -363,7 +427,16 @@ func (s *sys) addLetters() {
 		}
 		return false
 	}, Fire: func() {}})
+	s.x.AddEvent(&mc.Event{Name: "teardown", Teardown: true, Enabled: func() bool { return !s.torn }, Fire: func() {
+		s.torn = true
+		s.cancel()
+		for _, a := range s.actors {
+			close(a.ch)
+		}
+	}})
+}
 
+func (s *sys) addAlphabet() {
 	for _, a := range s.actors {
 		a := a
 		s.letter(a.decl.name, func() bool { return !a.busy }, func() {
@@ -387,23 +460,23 @@ func (s *sys) addLetters() {
 		if e.prefixOnly {
 			en = func() bool { return s.pos < len(s.cfg.prefix) }
 		}
-		s.letter(e.name, en, func() { s.x.Go("op", func() { s.doExecute(e) }) })
+		s.letter(e.name, en, func() { s.spawn("op", func() { s.doExecute(e) }) })
 	}
 	for i := range s.cfg.drains {
 		d := &s.cfg.drains[i]
-		s.letter(d.name+"+", nil, func() { s.x.Go("op", func() { s.doDrain(d, true) }) })
-		s.letter(d.name+"-", nil, func() { s.x.Go("op", func() { s.doDrain(d, false) }) })
+		s.letter(d.name+"+", nil, func() { s.spawn("op", func() { s.doDrain(d, true) }) })
+		s.letter(d.name+"-", nil, func() { s.spawn("op", func() { s.doDrain(d, false) }) })
 	}
 	for i := range s.cfg.terms {
 		t := &s.cfg.terms[i]
-		s.letter(t.name, nil, func() { s.x.Go("op", func() { s.doTerminate(t) }) })
+		s.letter(t.name, nil, func() { s.spawn("op", func() { s.doTerminate(t) }) })
 	}
 	if s.cfg.list {
-		s.letter("list", nil, func() { s.x.Go("op", func() { s.doList() }) })
+		s.letter("list", nil, func() { s.spawn("op", func() { s.doList() }) })
 	}
 	for _, k := range s.cfg.inspect {
 		k := k
-		s.letter(k, nil, func() { s.x.Go("op", func() { s.doInspect(k) }) })
+		s.letter(k, nil, func() { s.spawn("op", func() { s.doInspect(k) }) })
 	}
 	if s.cfg.maxTicks > 0 {
 		s.letter("tick", func() bool { return s.nTicks < s.cfg.maxTicks }, func() {
@@ -411,13 +484,6 @@ func (s *sys) addLetters() {
 			s.clock.advance(tickUnit)
 		})
 	}
-	s.x.AddEvent(&mc.Event{Name: "teardown", Teardown: true, Enabled: func() bool { return !s.torn }, Fire: func() {
-		s.torn = true
-		s.cancel()
-		for _, a := range s.actors {
-			close(a.ch)
-		}
-	}})
 }
 
 // registeredTask reports whether the worker still holds its task in the
@@ -529,7 +595,7 @@ func (s *sys) doExecute(e *execDecl) {
 		Salt:            []byte{salt, byte(a.scIdx)},
 	}
 	s.cas.put(hash, action)
-	t := &mTask{hash: hash, inst: e.inst, platform: a.platform,
+	t := &mTask{hash: hash, inst: e.inst, platform: s.cfg.routedPlatform(a.platform),
 		dur: time.Duration(a.dur) * tickUnit, scIdx: a.scIdx, letter: e.name, share: e.share}
 	t.ops = []*mOp{{t: t, path: s.cfg.modelPath(e), prio: e.prio, at: now}}
 	want := codes.OK
